@@ -24,6 +24,12 @@ class Ctx:
         self.meta = meta or {}
         self.cg = CallGraph(facts)
         self.pure = self.cg.pure_bodies()
+        # trivial free functions (one block, no calls) are cheaper and more precise inlined than summarised
+        for k in list(self.pure):
+            b = self.B[k]
+            if b['def_kind'] == 'Fn' and len([x for x in b['blocks'] if not x['cleanup']]) == 1 and \
+                    all(x['term']['k'] != 'call' for x in b['blocks']):
+                self.pure.discard(k)
         self._graphs = {}
         self._roles = {}
         self.by_path = {}
@@ -191,6 +197,28 @@ class Ctx:
             if need not in out.values():
                 raise RoleError('write-side trait method role %s not found' % need)
         return out
+
+    def spec_facts(self, entry, checker=None, write_side=None):
+        """Refinement facts specialising a stacked / read-only cache method:
+        checker in {None (unconstrained), 'none', 'some'}; write_side likewise."""
+        body = self.B[entry]
+        selfp = SYM('param', '1', body['locals'][1].get('name', 'arg1'))
+        obj = SYM('ld', selfp, '*')
+        facts = {}
+        sty = self.T[body['impl_self_ty']].get('adt') if body.get('impl_self_ty') is not None else None
+        cv = {'none': 0, 'some': 1}
+        if sty == self.role('stack_cache'):
+            f = self.stack_fields()
+            if checker:
+                facts[('var', SYM('fld', obj, 'f%d' % f['checker']))] = cv[checker]
+                rs = SYM('fld', obj, 'f%d' % f['read_side'])
+                facts[('var', SYM('fld', rs, 'f%d' % self.readonly_fields()['checker']))] = cv[checker]
+            if write_side:
+                facts[('var', SYM('fld', obj, 'f%d' % f['write_side']))] = cv[write_side]
+        elif sty == self.role('readonly_cache'):
+            if checker:
+                facts[('var', SYM('fld', obj, 'f%d' % self.readonly_fields()['checker']))] = cv[checker]
+        return facts
 
     def _role_write_trait(self):
         t = self.adt(self.role('stack_cache'))
